@@ -961,5 +961,9 @@ V('C02', 'staterror-auxdata-falls-back-to-inits', 'fire', 'C02.R7', 'staterror n
 V('C02', 'staterror-auxdata-falls-back-to-ones', 'silent', '', 'staterror no longer declares its auxiliary data; the normal-constrained set falls back to ones',
   ('src/pyhf/modifiers/staterror.py', "        'auxdata': (1.0,) * n_parameters,\n", ''),
   ('src/pyhf/parameters/paramsets.py', "        self.pdf_type = 'normal'\n        self.auxdata = kwargs.pop('auxdata')\n", "        self.pdf_type = 'normal'\n        self.auxdata = kwargs.pop('auxdata', None) or [1.0] * kwargs.get('n_parameters', 1)\n"))
+V('C09', 'range-extended-for-the-observed-curve-only', 'fire', 'C09.R6', 'the upper scan bound is doubled until the OBSERVED curve is below the level; the expected curves are not looked at',
+  ('src/pyhf/infer/intervals/upper_limits.py', '    while np.any(np.asarray([upper_results[0]] + upper_results[1]) > level):', '    while np.any(np.asarray([upper_results[0]]) > level):'))
+V('C09', 'expected-bracket-column-off-by-one', 'fire', 'C09.R6', 'the bracket of expected curve k is chosen on curve k+1',
+  ('src/pyhf/infer/intervals/upper_limits.py', 'value[0] - level if limit == 0 else value[1][limit - 1] - level', 'value[0] - level if limit == 0 else value[1][min(limit, 4)] - level'))
 V("C13", "code4-exponent-mask-strict", "fire", "C13.R3", "code 4 takes exponent 1 (a constant) exactly at |alpha| = alpha0",
   ("src/pyhf/interpolators/code4.py", "            exponents >= self.__alpha0, exponents, self.ones", "            exponents > self.__alpha0, exponents, self.ones"))
